@@ -11,7 +11,7 @@ From V.c15 Require Import C15Model C15Spec C15HevcModel C15HevcSpec C15Examples 
 From V.c06 Require Import C06SencModel C06SencAuxProofs.
 From V.c07 Require Import C07Model C07Spec C07RangeProofs C07CryptProofs C07AuxProofs C07FinalProofs.
 From V.c07 Require Import C07CodecModel C07CodecProofs C07FragProofs C07OnlyProofs C07TrafModel C07TrafProofs C07MixedProofs C07OffsetProofs C07SizeProofs.
-From V.c07 Require Import C07WrapModel C07WrapProofs C07WrapFinalProofs.
+From V.c07 Require Import C07WrapModel C07WrapProofs C07WrapFinalProofs C07WrapFragProofs.
 
 (* AppendProtectRange, every nrClear / nrProtected (65535, 65536, 131070, ... included) *)
 Theorem C07_append_protect_range : forall ssps c p,
@@ -519,6 +519,50 @@ Theorem C07_partition_shape_current :
 Proof. exact partition_shape_current. Qed.
 Print Assumptions C07_partition_shape_current.
 
+(* C07_fragment_only_protected and C07_no_counter_reuse_fragment for the protection function EncryptFragment really
+   calls on video (Get(AVC|HEVC)ProtectRanges, current text; any isvideo, any slice-header function reporting a size
+   inside the NAL unit: C07_slice_header_size_bounded), with NO hypothesis left on the protection function, and for ANY
+   sample bytes below 2^32 (not only concatenations of NAL units): whenever EncryptFragment succeeds, every other box is
+   kept, saiz / saio / senc are appended, every sample keeps its size, its entries partition it exactly, there is at
+   least one entry, and the mdat changes at most at protected positions; the per-sample IVs never reuse a counter block *)
+Theorem C07_fragment_video_closed :
+  forall (E D : list N -> list N -> list N) (isvideo : N -> bool) (hdr : list N -> res N) (psch : scheme),
+  (forall k b, length (E k b) = 16%nat) -> (forall k b, length (D k b) = 16%nat) ->
+  (forall n h, hdr n = Ok h -> h <= lenN n) ->
+  forall sch key iv cb sb f g,
+  key_ok key = true -> bytes_ok iv = true ->
+  Forall (fun s => lenN s < 4294967296) (bf_samples f) ->
+  encrypt_fragment_bytes E D (protect_ranges_w isvideo hdr psch) sch key iv cb sb f = Ok g ->
+  bf_before g = bf_before f /\ bf_after g = bf_after f /\
+  (exists saizb saiob sencb,
+      bf_traf g = bf_traf f ++ [saizb; saiob; sencb] /\
+      is_box [115; 97; 105; 122] saizb /\ is_box [115; 97; 105; 111] saiob /\ is_box [115; 101; 110; 99] sencb) /\
+  (exists encs,
+      bf_samples g = map e_data encs /\
+      Forall2 (fun s e => protect_ranges_w isvideo hdr psch s = Ok (e_ssps e) /\ covered (e_ssps e) = lenN s /\
+                          e_ssps e <> [] /\ length (e_data e) = length s) (bf_samples f) encs /\
+      keep_clear (concat (map (fun e => sample_mask (e_ssps e) (lenN (e_data e))) encs))
+                 (mdat_payload f) (mdat_payload g)).
+Proof. exact fragment_video_closed. Qed.
+Print Assumptions C07_fragment_video_closed.
+
+Theorem C07_no_counter_reuse_closed :
+  forall (E : list N -> list N -> list N) (isvideo : N -> bool) (hdr : list N -> res N) (psch : scheme),
+  (forall n h, hdr n = Ok h -> h <= lenN n) ->
+  forall key iv samples encs,
+  length iv = 16%nat -> bytes_ok iv = true ->
+  Forall (fun s => lenN s < 4294967296) samples -> lenN samples < 4294967296 ->
+  encrypt_samples_cenc E (protect_ranges_w isvideo hdr psch) key iv samples = Ok encs ->
+  sumN (map blocks_of encs) < 2 ^ 60 /\
+  (forall i ei, nth_error encs i = Some ei ->
+     be (e_iv ei) = (be iv + sumN (map blocks_of (firstn i encs))) mod 2 ^ 128) /\
+  (forall i j ei ej t t',
+     (i < j)%nat -> nth_error encs i = Some ei -> nth_error encs j = Some ej ->
+     t < blocks_of ei -> t' < blocks_of ej ->
+     (be (e_iv ei) + t) mod 2 ^ 128 <> (be (e_iv ej) + t') mod 2 ^ 128).
+Proof. exact no_counter_reuse_closed. Qed.
+Print Assumptions C07_no_counter_reuse_closed.
+
 (* ---------------------------------------------------------------- the hypotheses are satisfiable *)
 Definition ex_nalus : list (list N) :=
   [ [9; 240];                                  (* AUD, 2 bytes *)
@@ -650,3 +694,14 @@ Proof.
   split; [vm_compute; reflexivity|]. split; [vm_compute; reflexivity|]. split; [vm_compute; reflexivity|].
   split; [|discriminate]. unfold ex_hdr3. intros n h H. inversion H. lia.
 Qed.
+
+(* the hypotheses of C07_fragment_video_closed: the example fragment through the current text, one sample carrying 3
+   bytes behind its last NAL unit *)
+Example ex_fragment_closed :
+  match encrypt_fragment_bytes ex_E ex_E (protect_ranges_w avc_is_video ex_hdr3 Cenc) Cenc (repeat 7 16)
+          (repeat 255 8) 0 0
+          (mkBF (bf_before ex_bfrag) (bf_traf ex_bfrag) (bf_after ex_bfrag) [frames ex_nalus ++ [1; 2; 3]; frames ex_nalus]) with
+  | Ok g => length (bf_traf g) = 5%nat /\ map (fun s => lenN s) (bf_samples g) = [272; 269]
+  | _ => False
+  end.
+Proof. vm_compute. split; reflexivity. Qed.
